@@ -146,6 +146,9 @@ pub struct FuzzSpec<'a> {
     /// per-input timeout of libFuzzer in seconds
     pub timeout_s: u32,
     pub malloc_limit_mb: u32,
+    /// LeakSanitizer at exit of each input (off for the world target: the harness' own fake network
+    /// holds reference cycles that are not the product's)
+    pub detect_leaks: bool,
     /// decide a crash artifact with the in-process oracle: Ok(()) = not a violation of this property
     pub confirm: &'a (dyn Fn(&[u8], &mut Obs) -> Result<(), Fail> + Sync),
     /// the artifact as a replayable case of sub-check `sub`
@@ -193,10 +196,14 @@ pub fn run_fuzz(ctx: &Ctx, findings: &Findings, spec: &FuzzSpec) -> Option<SubRe
                         .arg(format!("-timeout={}", spec.timeout_s))
                         .arg(format!("-malloc_limit_mb={}", spec.malloc_limit_mb))
                         .arg("-rss_limit_mb=6144")
+                        .arg(format!("-detect_leaks={}", spec.detect_leaks as u8))
                         .arg("-print_final_stats=1")
                         .arg(format!("-artifact_prefix={}/", art.display()));
                     if dict.exists() {
                         cmd.arg(format!("-dict={}", dict.display()));
+                    }
+                    if !spec.detect_leaks {
+                        cmd.env("ASAN_OPTIONS", "detect_leaks=0");
                     }
                     cmd.env("UMVERIF_FUZZ_STATS", dir.join("stats.json"))
                         .env("VERIF_DIR", &ctx.verif_dir)
